@@ -162,6 +162,154 @@ Theorem C18_gen_stopped_capacity : RecovererStoppedCap = 1%Z.
 Proof. vm_compute. reflexivity. Qed.
 Print Assumptions C18_gen_stopped_capacity.
 
+From Verif Require Import Base.GenIR Gen.GeneratedTr Proofs.GenTrLifecycle.
+Section GenTie.
+Local Open Scope Z_scope.
+(* ---- Tie to the source by translation (Gen/GeneratedTr.v, regenerated from /repo on every run by gen/translate.go) ----
+   g_* are the decision terms translated from the CURRENT pkg/v3/service/recoverable.go: every condition (including
+   which case of each select is taken, as an input), the branch structure and which effect statement runs on which path.
+   The theorems below state that the transitions of the model for the repaired code (cfg_new) - about which the
+   theorems above speak - follow these terms. *)
+(* recoverer.Start: the compare-and-swap on running succeeds exactly when it was false; a failed swap returns ErrServiceAlreadyStarted with nothing written *)
+Theorem C18_gen_start_swap :
+  forall k s c, s_t s = TNew ->
+  step (cfg_new k) s TBegin =
+  match g_rec_start (negb (s_running s)) c with
+  | ([], RetO 1) => Some (w_t s (TRet RAlready))
+  | _ => Some (w_t (w_running s true) TChk)
+  end.
+Proof. exact gen_rec_start_begin. Qed.
+Print Assumptions C18_gen_start_swap.
+
+(* recoverer.Start after the swap: a closed recoverer resets running (1) and refuses; otherwise launch (2) then watcher loop (3) *)
+Theorem C18_gen_start_closed_check :
+  forall k s, s_t s = TChk ->
+  step (cfg_new k) s TCheck =
+  match g_rec_start true (s_closed s) with
+  | ([1], RetO 2) => Some (w_t (w_running s false) (TRet RClosed))
+  | ([2; 3], RetO 0) => Some (w_t s TSpawn)
+  | _ => None
+  end.
+Proof. exact gen_rec_start_check. Qed.
+Print Assumptions C18_gen_start_closed_check.
+
+(* recoverer.Start: the launch transition of the model *)
+Theorem C18_gen_start_launch :
+  forall k s, s_t s = TSpawn ->
+  step (cfg_new k) s TLaunch = Some (launch s TSel).
+Proof. exact gen_rec_start_launch. Qed.
+Print Assumptions C18_gen_start_launch.
+
+(* recoverer.Close: closed is set first on every path (1); not running: ErrServiceNotRunning without touching the service; otherwise service.Close (2), then the close signal (3) *)
+Theorem C18_gen_close_path :
+  forall k s,
+  (forall r, hd 0 (fst (g_rec_close r)) = 1) /\
+  (s_c s = CIdle -> step (cfg_new k) s ECall = Some (w_c s CMark)) /\
+  (s_c s = CMark -> step (cfg_new k) s CMarkL = Some (w_c (w_closed s true) CRead)) /\
+  (s_c s = CRead ->
+   step (cfg_new k) s CReadL =
+   match g_rec_close (s_running s) with
+   | ([1], RetO 1) => Some (w_c s (CRet CNotRunning))
+   | ([1; 2; 3], RetO 2) => Some (w_c s CSvc)
+   | _ => None
+   end) /\
+  (forall r, s_c s = CSig r -> step (cfg_new k) s CSigL = Some (w_c (w_chclose s true) (CRet r))).
+Proof. exact gen_rec_close. Qed.
+Print Assumptions C18_gen_close_path.
+
+(* serviceStart, a result from `stopped`: nil and ordinary errors leave the loop running, a recovered panic starts the cool-down *)
+Theorem C18_gen_watch_result :
+  forall k s m c1 c2, s_t s = TSel -> s_buf s = Some m -> m <> MCancel ->
+  step (cfg_new k) s TRecv =
+  match g_rec_watch_body true c1 (msg_is_err m) (msg_is_panic m) c2 false, msg_is_panic m with
+  | ([], Fall), false => Some (w_t (w_buf s None) TSel)
+  | _, true => Some (w_t (w_buf s None) TCool)
+  | _, _ => None
+  end.
+Proof. exact gen_rec_watch_result. Qed.
+Print Assumptions C18_gen_watch_result.
+
+(* serviceStart after the cool-down (ended by timer or by the close signal): a closed recoverer resets running and returns, otherwise the service is launched again *)
+Theorem C18_gen_watch_after_cooldown :
+  forall k s cooled c1, s_t s = TReChk ->
+  step (cfg_new k) s TReCheck =
+  match g_rec_watch_body true c1 true true cooled (s_closed s) with
+  | ([1], RetU) => Some (w_t (w_running s false) (TRet RNil))
+  | ([2], Fall) => Some (w_t s TRespawn)
+  | _ => None
+  end.
+Proof. exact gen_rec_watch_cooldown. Qed.
+Print Assumptions C18_gen_watch_after_cooldown.
+
+(* serviceStart: the two ways out of the cool-down and the relaunch transition of the model *)
+Theorem C18_gen_watch_cooldown_ends :
+  forall k s, s_t s = TCool ->
+  step (cfg_new k) s TTimer = Some (w_t s TReChk) /\
+  step (cfg_new k) s TCoolClose = (if s_chclose s then Some (w_t s TReChk) else None) /\
+  (forall s', s_t s' = TRespawn -> step (cfg_new k) s' TRelaunch = Some (launch s' TSel)).
+Proof. exact gen_rec_watch_cooldown_ends. Qed.
+Print Assumptions C18_gen_watch_cooldown_ends.
+
+(* serviceStart: the close signal ends the loop with running reset *)
+Theorem C18_gen_watch_close_signal :
+  forall k s c3 c4 c5 c6, s_t s = TSel ->
+  step (cfg_new k) s TExit =
+  if s_chclose s
+  then match g_rec_watch_body false true c3 c4 c5 c6 with
+       | ([1], RetU) => Some (w_t (w_running s false) (TRet RNil))
+       | _ => None
+       end
+  else None.
+Proof. exact gen_rec_watch_close. Qed.
+Print Assumptions C18_gen_watch_close_signal.
+
+(* recoverableStart: service.Start runs and its result is always sent; a panic is recovered and reported as errServiceStopped *)
+Theorem C18_gen_service_goroutine :
+  forall l e,
+  g_rec_run l e = ([1; 2], Fall) /\ g_rec_run_recover l true = ([1], Fall) /\ g_rec_run_recover l false = ([], Fall).
+Proof. exact gen_rec_run. Qed.
+Print Assumptions C18_gen_service_goroutine.
+
+(* timeTicker.Start (the start-once service kind): a second start is refused with an error and nothing else; the first registers its clean-up and enters the loop *)
+Theorem C18_gen_ticker_start_once :
+  forall s, s_g s = GLaunched ->
+  exists s1, step (cfg_new KOnce) s GEnter = Some s1 /\
+  match g_ticker_start (v_started s) with
+  | ([], RetO 1) => s_g s1 = GSend MErr /\ v_started s1 = v_started s
+  | ([1; 2; 3; 4; 5; 6], Fall) => s_g s1 = GActive /\ v_started s1 = true
+  | _ => False
+  end.
+Proof. exact gen_ticker_start_once. Qed.
+Print Assumptions C18_gen_ticker_start_once.
+
+(* timeTicker loop: a stop request ends Start with nil; ticks without getter or with a getter error are skipped; otherwise fetch (1) and process on its own goroutine (2) *)
+Theorem C18_gen_ticker_loop :
+  forall s a b, s_g s = GActive ->
+  g_ticker_loop_body true a b = ([], RetO 0) /\
+  step (cfg_new KOnce) s GStop = (if v_stopreq s then Some (w_g s (GSend MNil)) else None) /\
+  g_ticker_loop_body false true b = ([], Fall) /\ g_ticker_loop_body false false true = ([1], Fall) /\
+  g_ticker_loop_body false false false = ([1; 2], Fall) /\ (forall e, g_ticker_process e = ([1], Fall)).
+Proof. exact gen_ticker_loop. Qed.
+Print Assumptions C18_gen_ticker_loop.
+
+(* timeTicker.Close: signal the stop channel (1) and wait for Start to return (2): the model's CSvcL / CWaitL for a start-once service *)
+Theorem C18_gen_ticker_close :
+  forall s, s_c s = CSvc -> v_started s = true -> v_stopped s = false ->
+  g_ticker_close = ([1; 2], RetO 0) /\
+  exists s1, step (cfg_new KOnce) s CSvcL = Some s1 /\ v_stopreq s1 = true /\ v_stopped s1 = true /\ s_c s1 = CWait CNil /\
+  (g_active (s_g s1) = true -> step (cfg_new KOnce) s1 CWaitL = None).
+Proof. exact gen_ticker_close. Qed.
+Print Assumptions C18_gen_ticker_close.
+
+(* plugin.Close closes every recoverer in order; startServices launches every recoverer *)
+Theorem C18_gen_plugin_close :
+  g_plugin_close = ([1], RetO 1) /\ g_plugin_close_body = ([1], Fall) /\ g_plugin_start_body = ([1], Fall).
+Proof. exact gen_plugin_close. Qed.
+Print Assumptions C18_gen_plugin_close.
+
+End GenTie.
+Close Scope Z_scope.
+
 (* ---------------------------------------------------------------- non-vacuity *)
 (* a repaired recoverer around a start-once service: start, Close while the service runs; the state is
    reachable, satisfies the hypotheses of C18_close_stops, and is at rest with nothing left *)
